@@ -24,7 +24,10 @@ func LiteBoundsFor(thorough bool) Bounds {
 	b.Lite = true
 	b.MaxVers = 2
 	if thorough {
+		// C12 multiplies every tuple by ~12 option variants and runs four analyses per tuple: the thorough tier uses
+		// the plain 5-version ladder (pre-releases are C11's business) with up to 3 published versions.
 		b.MaxVers = 3
+		b.Ladder = Ladder5
 	}
 	return b
 }
@@ -659,7 +662,8 @@ func (b Bounds) Describe() string {
 //	default; ignore=[V1]; ignore=[V2]*; explicit=[V1]; explicit=[V2]*; dev-deps off with the first manifest
 //	requirement marked dev; dev-deps off with the second one marked dev**; the same two with dev-deps ON
 //	(requirement i is a dev/test dependency and is analysed like any other); max depth 1; max depth 2;
-//	min severity 5.0 with V1 low (1.8) and V2 high (9.8); the same with V1 high and V2 low*; no-introduce.
+//	min severity 5.0 with V1 low (1.8) and V2 high (9.8); the same with V1 high and V2 low*; both again with the
+//	severity on the affected entry next to a `versions` list that does not contain the resolved version; no-introduce.
 //	(* only with two vulnerability records, ** only with two manifest requirements)
 func OptionVariants(c *Case) []Case {
 	var out []Case
@@ -706,6 +710,22 @@ func OptionVariants(c *Case) []Case {
 				v.Vulns[i].Sev = []string{"high", "low"}[min(i, 1)]
 			}
 		})
+	}
+	// the same severity filter, but the severity sits on the affected entry, which also carries an explicit
+	// `versions` list that does NOT contain the resolved version (the range decides)
+	entry := func(v *Case, sevs []string) {
+		v.Opt.MinSeverity = 5
+		for i := range v.Vulns {
+			v.Vulns[i].Sev = sevs[min(i, 1)]
+			v.Vulns[i].EntrySev = true
+			v.Vulns[i].Versions = []string{"0.0.1"}
+		}
+	}
+	if len(c.Vulns) > 0 {
+		add("minsev=5:entry:V1low", func(v *Case) { entry(v, []string{"low", "high"}) })
+	}
+	if len(c.Vulns) > 1 {
+		add("minsev=5:entry:V1high", func(v *Case) { entry(v, []string{"high", "low"}) })
 	}
 	add("nointroduce", func(v *Case) { v.Opt.NoIntroduce = true })
 	return out
@@ -913,7 +933,7 @@ func (b Bounds) GenAliasShape(emit func(*Case)) {
 }
 
 // OriginShapes lists the shapes of GenOriginShape (Maven only, used by C12).
-var OriginShapes = []string{"origin-direct", "origin-transitive"}
+var OriginShapes = []string{"origin-direct", "origin-transitive", "origin-profile-only"}
 
 // GenOriginShape enumerates Maven manifests in which ONE artifact is declared under two origins (or only
 // in a management section), crossed with the usual vulnerability sets:
@@ -927,7 +947,11 @@ var OriginShapes = []string{"origin-direct", "origin-transitive"}
 //	origin-transitive   manifest {d1: 1.0.0} + dependencyManagement / profile management entry t1: w;
 //	                    d1@1.0.0 -> t1@v; t1 publishes T; vulnerable t1
 //	                    T in Subsets(ladder, min(MaxVers,2)) x v, w in T x {management; thorough: profile-management} x VulnSets(t1) x CfgSets(d1,t1)
-//	quick drops the {[0,f),[0,f')} pairs from VulnSets in both shapes.
+//	origin-profile-only manifest {d1: 1.0.0} whose ONLY <dependencyManagement> section sits in a profile (active by default /
+//	                    inactive) and manages an unrelated published artifact m1; d1@1.0.0 -> t1@v; t1 publishes T; vulnerable t1
+//	                    (the override has to ADD a project-level dependencyManagement section)
+//	                    T in Subsets(ladder, min(MaxVers,2)) x v in T x {profile-management, profile-inactive-management} x VulnSets(t1) x CfgSets(d1,t1)
+//	quick drops the {[0,f),[0,f')} pairs from VulnSets in all shapes.
 func (b Bounds) GenOriginShape(shape string, emit func(*Case)) {
 	l := b.Ladder
 	subs := Subsets(l, min(b.MaxVers, 2)) // two published versions express "same" and "different" declarations
@@ -972,6 +996,25 @@ func (b Bounds) GenOriginShape(shape string, emit func(*Case)) {
 					for _, cfg := range cfgs {
 						emit(&Case{Eco: Maven, Shape: shape, Pkgs: []Pkg{{Name: "d1", Vers: plainVers(s)}},
 							Manifest: append([]Req(nil), d...), Vulns: append([]Vuln(nil), vs...), Cfg: cfg})
+					}
+				}
+			}
+		}
+	case "origin-profile-only":
+		vsT := trim(b.VulnSets("t1"))
+		cfgs := b.CfgSets([]string{"d1", "t1"})
+		for _, t := range subs {
+			for _, v := range t {
+				for _, o := range []string{OriginProfileManagement, OriginProfileInactiveManagement} {
+					for _, vs := range vsT {
+						for _, cfg := range cfgs {
+							emit(&Case{Eco: Maven, Shape: shape, Pkgs: []Pkg{
+								{Name: "d1", Vers: []Ver{{V: "1.0.0", Deps: []Dep{{Name: "t1", Req: v}}}}},
+								{Name: "t1", Vers: plainVers(t)},
+								{Name: "m1", Vers: plainVers([]string{"1.0.0"})},
+							}, Manifest: []Req{{Name: "d1", Req: "1.0.0"}, {Name: "m1", Req: "1.0.0", Origin: o}},
+								Vulns: append([]Vuln(nil), vs...), Cfg: cfg})
+						}
 					}
 				}
 			}
